@@ -33,11 +33,15 @@ structure ClientSummary where
   imported : List String
   nameLoads : List String
   attrs : List (Option String × String)   -- (base name if the value is a plain name, attribute)
+  fromNames : List String := []            -- `x` of every `from m import x [as y]`
+  star : Bool := false                     -- the file has a `from m import *`
+  allNames : List String := []             -- every name the file mentions (what a star import may stand for)
 deriving Repr
 
 def usedNames (c : ClientSummary) : List String :=
   c.nameLoads.filter (fun n => c.imported.contains n) ++
-    c.attrs.flatMap (fun a => a.2 :: (match a.1 with | some b => if c.imported.contains b then [b] else [] | none => []))
+    c.attrs.flatMap (fun a => a.2 :: (match a.1 with | some b => if c.imported.contains b then [b] else [] | none => [])) ++
+    c.fromNames ++ (if c.star then c.allNames else [])
 
 /-- a guarded rule: of its candidates it touches only the names outside `preserve` -/
 def guarded (preserve candidates : List String) : List String := candidates.filter (fun n => !preserve.contains n)
@@ -81,11 +85,21 @@ theorem mem_filePreserve (used : List (String × List String)) (ns x : String) :
 theorem usedNames_attr (c : ClientSummary) (b : Option String) (a : String) (h : (b, a) ∈ c.attrs) :
     a ∈ usedNames c := by
   simp only [usedNames, List.mem_append, List.mem_flatMap]
-  exact Or.inr ⟨(b, a), h, by simp⟩
+  exact Or.inl (Or.inl (Or.inr ⟨(b, a), h, by simp⟩))
 
 theorem usedNames_import (c : ClientSummary) (n : String) (h1 : n ∈ c.nameLoads) (h2 : n ∈ c.imported) :
     n ∈ usedNames c := by
   simp only [usedNames, List.mem_append, List.mem_filter]
-  exact Or.inl ⟨h1, by simpa using h2⟩
+  exact Or.inl (Or.inl (Or.inl ⟨h1, by simpa using h2⟩))
+
+/-- what is imported by name from another module is needed there under its own name, alias or not, used or only re-exported -/
+theorem usedNames_from (c : ClientSummary) (n : String) (h : n ∈ c.fromNames) : n ∈ usedNames c := by
+  simp only [usedNames, List.mem_append]
+  exact Or.inl (Or.inr h)
+
+/-- behind a star import every name the file mentions may come from the other module -/
+theorem usedNames_star (c : ClientSummary) (n : String) (hs : c.star = true) (h : n ∈ c.allNames) : n ∈ usedNames c := by
+  simp only [usedNames, List.mem_append, hs, if_true]
+  exact Or.inr h
 
 end Preserve
